@@ -11,7 +11,7 @@ import ast
 from ..program import AnalysisError, walk_local, dotted
 from ..analysis import Spec, src, const_value
 from ..cfg import node_contains_call
-from ..rules import (GWF, EXC, mpt, need_func, need_call, stores_to,
+from ..rules import (inside, before, GWF, EXC, mpt, need_func, need_call, stores_to,
                      substitute_locals, chained_assign_value, kw, is_const,
                      eval_atom, UNKNOWN)
 from . import common, c06
@@ -316,7 +316,7 @@ def process_selection(prog, an, rep):
     it_start = [s for s in c.succ[head] if c.nodes[s].kind == 'true']
     gates = an.gate_nodes(f, look, depth=0)
     ext_in_loop = [n for n in an.target_nodes(f, extract, depth=0)
-                   if loop.lineno <= n.lineno <= loop.end_lineno]
+                   if inside(loop, n)]
     rep.floor('C03 _extract_pr_ids call sites inside the loop',
               len(ext_in_loop), 1)
     for t in ext_in_loop:
@@ -334,7 +334,7 @@ def process_selection(prog, an, rep):
     # same `stack` value
     la = [x.args[0] for x in an.direct_calls(f, look) if x.args]
     ea = [x.args[0] for x in an.direct_calls(f, extract)
-          if x.args and loop.lineno <= x.lineno <= loop.end_lineno]
+          if x.args and inside(loop, x)]
     same = la and ea and {src(a) for a in la} == {src(a) for a in ea} and \
         all(isinstance(a, ast.Name) for a in la + ea)
     rep.check(bool(same), 'C03.ARG.selection', f.qname + ': lookup and '
@@ -357,7 +357,7 @@ def process_selection(prog, an, rep):
         # shrink only: the in-loop rebinding is guarded by len(new) < len(old)
         if ok:
             for st, val in stores_to(f, a0.id):
-                if loop.lineno <= st.lineno <= loop.end_lineno:
+                if inside(loop, st):
                     n = c.stmt_node.get(id(st))
                     def is_len_cmp(e):
                         return isinstance(e, ast.Compare) and \
@@ -526,7 +526,7 @@ def is_needed_rules(prog, an, rep):
         inc_false = [b for b in an.branch_nodes(
             f, lambda e: has(e, 'includes_commit') and
             has(e, 'get_latest_commit'), False)
-            if lp.lineno <= c.nodes[b].lineno <= lp.end_lineno]
+            if inside(lp, c.nodes[b])]
         for b in inc_false:
             reach = c.reachable(start=b, use_exc=False, stop=[head])
             bad = head in reach
